@@ -280,6 +280,7 @@ func ruleFutureOrder(c *Ctx, r *R) {
 		return
 	}
 	var st, cl ssa.Instruction
+	var deferredClose *ssa.Defer
 	instrs(fill, func(b *ssa.BasicBlock, i int, in ssa.Instruction) {
 		switch x := in.(type) {
 		case *ssa.Store:
@@ -290,8 +291,24 @@ func ruleFutureOrder(c *Ctx, r *R) {
 			if bi, ok := x.Call.Value.(*ssa.Builtin); ok && bi.Name() == "close" && fieldOfChan(x.Call.Args[0]) == "c" {
 				cl = x
 			}
+		case *ssa.Defer:
+			// defer close(f.c), registered first thing: the close is the last thing Fill does, after the store
+			if bi, ok := x.Call.Value.(*ssa.Builtin); ok && bi.Name() == "close" && fieldOfChan(x.Call.Args[0]) == "c" && b == fill.Blocks[0] {
+				deferredClose = x
+			}
 		}
 	})
+	if cl == nil && deferredClose != nil && st != nil && st.Block() == fill.Blocks[0] {
+		nDefers := 0
+		instrs(fill, func(_ *ssa.BasicBlock, _ int, in ssa.Instruction) {
+			if _, ok := in.(*ssa.Defer); ok {
+				nDefers++
+			}
+		})
+		r.ok(nDefers == 1, "xsync.Future.Fill|store-then-close", fill.Pos(), "Fill must store x (the parameter) and then close(c), unconditionally: with several deferred calls the close is not known to be the last of them")
+		cl = nil
+		goto readers
+	}
 	if cl == nil {
 		// close through a helper of the channel (`f.c.release()`): the helper closes its argument unconditionally (in its
 		// entry block); the closing instruction of Fill is then the call of the helper
@@ -314,6 +331,7 @@ func ruleFutureOrder(c *Ctx, r *R) {
 		}
 	}
 	r.ok(st != nil && cl != nil && st.Block() == cl.Block() && idxIn(st) < idxIn(cl) && st.Block() == fill.Blocks[0], "xsync.Future.Fill|store-then-close", fill.Pos(), "Fill must store x (the parameter) and then close(c), unconditionally: waiters read x right after the close")
+readers:
 	for _, name := range []string{"xsync.Future.Wait", "xsync.Future.WaitContext"} {
 		fn := c.fn(name)
 		if fn == nil {
@@ -410,6 +428,31 @@ func ruleFutureOrder(c *Ctx, r *R) {
 						if cal := bg.Call.StaticCallee(); cal != nil && cal.Pkg != nil && cal.Pkg.Pkg.Path() == "context" && (cal.Name() == "Background" || cal.Name() == "TODO") {
 							delegated = true
 						}
+					}
+				})
+			}
+			// WaitContext handing over to Wait once the receive from f.c has been observed (return f.Wait(), nil): the read
+			// is Wait's own (which must then read x itself, not delegate back)
+			if wt := c.fn("xsync.Future.Wait"); wt != nil && wt != fn && !delegated {
+				readsX := false
+				instrs(wt, func(_ *ssa.BasicBlock, _ int, in ssa.Instruction) {
+					if ld, ok := in.(*ssa.UnOp); ok && ld.Op == token.MUL {
+						if fa, ok := ld.X.(*ssa.FieldAddr); ok && fieldName(fa.X.Type(), fa.Field) == "x" {
+							readsX = true
+						}
+					}
+				})
+				instrs(fn, func(_ *ssa.BasicBlock, _ int, in ssa.Instruction) {
+					ret, ok := in.(*ssa.Return)
+					if !ok || len(ret.Results) == 0 {
+						return
+					}
+					call, ok := returnedValue(ret, 0).(*ssa.Call)
+					if !ok || staticCallee(&call.Call) != origin(wt) || len(call.Call.Args) != 1 || len(fn.Params) == 0 || resolveVal(call.Call.Args[0]) != ssa.Value(fn.Params[0]) {
+						return
+					}
+					if stt, seen := before[call]; seen && !stt.has(0) && readsX {
+						delegated = true
 					}
 				})
 			}
